@@ -142,12 +142,34 @@ class Scripted:
 
 
 # --- programs ------------------------------------------------------------------------------------------------
-def build(p):
-    """p: {kind:'set'|'tree', vars:[('b',)|('i',lo,hi)], keys:[idx], ...} -> (solver, variables)"""
+def _set_constraint(vs, tuples):
+    alts = []
+    for tup in tuples:
+        lits = [(v if val else ~v) if isinstance(v, BoolVar) else (v == val) for v, val in zip(vs, tup)]
+        a = lits[0]
+        for l in lits[1:]:
+            a = a & l
+        alts.append(a)
+    c = alts[0]
+    for a in alts[1:]:
+        c = c | a
+    return c
+
+
+def build(p, between=None):
+    """p: {kind:'set'|'tree', vars:[('b',)|('i',lo,hi)], keys:[idx], ...} -> (solver, variables).
+    With p['pre_set'] (a non-empty solution set posted first, keys registered first) `between(solver)` runs before the program's
+    own constraints are posted: a history solve / ensure / solve on one Solver; the meaning is the conjunction."""
     s = Solver()
     vs = []
     for d in p["vars"]:
         vs.append(s.bool_var() if d[0] == "b" else s.int_var(d[1], d[2]))
+    if p.get("pre_set"):
+        s.ensure(_set_constraint(vs, p["pre_set"]))
+        for k in p["keys"]:
+            s.add_answer_key(vs[k])
+        if between is not None:
+            between(s)
     if p["kind"] == "set":
         alts = []
         for tup in p["set"]:
@@ -173,8 +195,9 @@ def build(p):
                 s.ensure(trees.mk(t, bv, iv))
             except trees.Unbuildable:
                 pass
-    for k in p["keys"]:
-        s.add_answer_key(vs[k])
+    if not p.get("pre_set"):
+        for k in p["keys"]:
+            s.add_answer_key(vs[k])
     return s, vs
 
 
@@ -188,11 +211,16 @@ def reference_formula(p, vs, env):
         zb = [z for v, z in zip(vs, zs) if isinstance(v, BoolVar)]
         zi = [z for v, z in zip(vs, zs) if isinstance(v, IntVar)]
         body = z3.And([trees.ref_desc(t, zb, zi) for t in p["steps"] if trees.buildable(t)] or [z3.BoolVal(True)])
+    if p.get("pre_set"):
+        body = z3.And(body, z3.Or([z3.And([(z == (z3.BoolVal(val) if isinstance(v, BoolVar) else z3.IntVal(val))) for v, z, val in zip(vs, zs, tup)])
+                                   for tup in p["pre_set"]]))
     dom = [z3.And(z >= d[1], z <= d[2]) for z, d in zip(zs, p["vars"]) if d[0] == "i"]     # declared domains (program text)
     return z3.And(z3.And(dom) if dom else z3.BoolVal(True), body)
 
 
 def holds(p, vs, combo):
+    if p.get("pre_set") and tuple(combo) not in set(tuple(t) for t in p["pre_set"]):
+        return False
     if p["kind"] == "set":
         return tuple(combo) in set(tuple(t) for t in p["set"])
     vb = [x for v, x in zip(vs, combo) if isinstance(v, BoolVar)]
@@ -220,12 +248,19 @@ LAST_LOG = []
 
 def check_one(p, route):
     """returns (issue or None, n_queries, solver_s)"""
-    s, vs = build(p)
-    for v in vs:
-        v.sol = None
     with warnings.catch_warnings():
         warnings.simplefilter("ignore")
         log = []
+        # solve/ensure/solve histories run every solve of the session on one and the same back-end class (what a caller who
+        # passes backend="z3" twice gets); the recorded script then covers the whole session
+        session_be = backend_for(route, log) if p.get("pre_set") else None
+        try:
+            s, vs = build(p, between=lambda s1: [s1.solve(backend=session_be) for _ in range(p.get("pre_solves", 1))])
+        except Exception as e:
+            return {"kind": "exception", "detail": "first phase: %s: %s" % (type(e).__name__, str(e)[:200])}, 0, 0.0
+        if not p.get("pre_set"):
+            for v in vs:
+                v.sol = None
         try:
             if p.get("pre_find"):
                 # history: find_answer() on the same Solver first; the values it leaves in .sol must not survive as 'facts'
@@ -235,7 +270,7 @@ def check_one(p, route):
                 s.solve(backend=backend_for(route, []))
                 for k in p["keys2"]:
                     s.add_answer_key(vs[k])
-            ret = s.solve(backend=backend_for(route, log))
+            ret = s.solve(backend=session_be or backend_for(route, log))
         except Exception as e:
             return {"kind": "exception", "detail": "%s: %s" % (type(e).__name__, str(e)[:200])}, 0, 0.0
     LAST_LOG[:] = log
@@ -332,17 +367,24 @@ def replay(payload, verbose=False):
 def _replay_once(payload, verbose, scripted):
     p = from_json(payload["program"])
     route = payload["route"]
-    s, vs = build(p)
-    sat, facts = exact_facts_bruteforce(p, vs)
     native = route.startswith("fake:") and route != "fake:SugarBackend"
     if native or not payload.get("script") or not scripted:
-        be = backend_for(route)
+        be = backend_for(route, []) if p.get("pre_set") else backend_for(route)
     else:
         # deterministic: the oracle hands out the recorded (and re-verified) sequence of models
         class be(Scripted):
             script = payload["script"]
             pos = 0
             illegal = False
+    with warnings.catch_warnings():
+        warnings.simplefilter("ignore")
+        try:
+            s, vs = build(p, between=lambda s1: [s1.solve(backend=be) for _ in range(p.get("pre_solves", 1))])
+        except Exception as e:
+            if verbose:
+                print("first phase raised", type(e).__name__, e)
+            return True
+    sat, facts = exact_facts_bruteforce(p, vs)
     with warnings.catch_warnings():
         warnings.simplefilter("ignore")
         try:
@@ -393,6 +435,18 @@ def programs(tier, rng):
         k1 = [[0], [1], [], [0, 1]][mask % 4]
         k2 = [k for k in (0, 1, 2) if k not in k1][: 1 + mask % 2]
         out.append({"kind": "set", "vars": [("b",)] * 3, "set": S, "keys": k1, "keys2": k2})
+    # solve / ensure / solve on one Solver: a first solution set (often one that decides no key at all), a solve, then the
+    # program's own constraints, then the solve that is checked against the conjunction
+    for i, mask1 in enumerate([255, 255, 0b01101001, 0b10010110, 0b11110000, 0b00111100, 0b11000011, 0b10000001] + list(range(3, 256, 23 if tier == "quick" else 3))):
+        S1 = [cube[j] for j in range(8) if mask1 >> j & 1]
+        for mask2 in ([0b10111111, 0b11110101, 0b00001111, 0b00000110, (37 * i + 11) % 256, 255] if tier == "quick" else range(0, 256, 5)):
+            S2 = [cube[j] for j in range(8) if mask2 >> j & 1]
+            out.append({"kind": "set", "vars": [("b",)] * 3, "set": S2, "keys": key_subsets3[1 + (i + mask2) % 7], "pre_set": S1, "pre_solves": 1 + (i + mask2) % 2})
+    for k in range(60 if tier == "quick" else 600):
+        steps = [trees.as_constraint(rng, trees.random_tree(rng, rng.choice("BI"), rng.randint(1, 2))) for _ in range(rng.randint(1, 2))]
+        box = list(itertools.product((False, True), (-1, 0, 1), (False, True), (0, 1, 2)))
+        S1 = box if k % 2 == 0 else [t for t in box if rng.random() < 0.7] or box
+        out.append({"kind": "tree", "vars": [("b",), ("i", -1, 1), ("b",), ("i", 0, 2)], "steps": steps, "keys": [[0, 1, 2, 3], [0, 3], [1, 2]][k % 3], "pre_set": S1})
     mix = list(itertools.product((False, True), (-1, 0, 1)))
     for mask in range(0, 64):
         S = [mix[i] for i in range(6) if mask >> i & 1]
@@ -466,6 +520,7 @@ def run(tier, only=None):
                      "cspuz.backend.sugar_like.SugarLikeBackend.solve / solve_irrefutably / add_constraint (all five subclasses)"]
     rep.bounds = {"programs": "every solution set over 3 booleans (256), over {0,1,2}^2 (512%s), over bool x {-1,0,1} (64); %d random "
                   "tree programs over 2 bools + 2 ints" % ("" if tier == "thorough" else ", every 3rd in quick", 400 if tier == "quick" else 4000),
+                  "solve/ensure/solve": "a first solution set posted and solved once or twice (often deciding no key), then the program's own constraints, then the checked solve; reference = the conjunction",
                   "answer keys": "all subsets (thorough) / a rotating subset + all (quick); two-phase sessions (solve, add_answer_key, solve)",
                   "routes": ROUTES, "oracle orders": "z3's own, and 4 steered real-Z3 back ends (prefer hi / lo / minimal change / maximal change), "
                   "native deduction mode served by an exact text-protocol solver"}
